@@ -383,6 +383,18 @@ func runC14(c *Ctx) error {
 			if a != got {
 				c.Rep.Disagree(report.Disagreement{Family: "ordering", What: "version field inside the " + f + " package vs model rendering", Input: in, Model: a, Impl: got})
 			}
+			// the file name nfpm proposes states the same major.minor.patch (an epoch never runs into it)
+			if pk, kerr := nfpm.Get(f); kerr == nil {
+				ni := (&PkgSpec{Umask: 0o022, MTime: 1700000000, Mutate: func(i2 *nfpm.Info) {
+					i2.Version, i2.Prerelease, i2.VersionMetadata, i2.Release, i2.Epoch = viPre.Version, viPre.Prerelease, viPre.Metadata, rel, epoch
+				}}).Info()
+				name := pk.ConventionalFileName(ni)
+				sep := map[string]string{"deb": "_", "ipk": "_", "apk": "_", "rpm": "-", "archlinux": "-"}[f]
+				if !strings.HasPrefix(name, ni.Name+sep+core) {
+					c.Rep.Find(report.Finding{Property: "C14", Family: "ordering", Shape: f + ":file-name-does-not-state-major-minor-patch",
+						What: fmt.Sprintf("version %s (epoch %q): the conventional file name is %q; the version it states does not begin with %s right after the package name", core, epoch, name, core), Input: in})
+				}
+			}
 			// no component duplicated: asking for the conventional file name first (the command's order for a directory
 			// target) leaves the version the package states unchanged
 			if pmN, nerr := buildMetaNamed(f, func(i2 *nfpm.Info) {
